@@ -52,11 +52,11 @@ def corpus_cases():
 def faults_for(l, errnos):
     """fault kinds applicable to one logged call"""
     out = [{"n": l["n"], "errno": e, "name": name} for name, e in errnos]
-    if l["kind"] in ("write", "fwrite") and l["size"] > 1:
+    if l["kind"] in ("write", "fwrite", "pwrite", "sendfile", "copy_file_range") and l["size"] > 1:
         out.append({"n": l["n"], "errno": 28, "short": l["size"] // 2, "name": "short"})
         if l["size"] > 2:
             out.append({"n": l["n"], "errno": 28, "short": 1, "name": "short"})
-    if l["kind"] == "write" and l["size"] > 0:
+    if l["kind"] in ("write", "pwrite", "sendfile", "copy_file_range") and l["size"] > 0:
         out.append({"n": l["n"], "errno": 28, "short": 0, "name": "short"})
     return out
 
